@@ -30,3 +30,29 @@ def wellformed(lines):
 
 def known_match(k, lines, msg):
     return False
+
+
+def witness_programs(rep, prop):
+    """known findings whose witness is a small C program (features the script harness does not drive, e.g. task sources):
+    built against /repo as it is now (ASan) and run; the finding is printed when the program still fails the recorded way"""
+    import os, re, vlib
+    for k in vlib.load_known(prop):
+        src = k.get('witness_c')
+        if not src or any(kh[0] == k['id'] for kh in rep.known_hits):
+            continue
+        exe, log = vlib.build_harness('witness_%s' % k['id'].replace('-', '_'), src, LIB_SRCS, extra=['-lpthread', '-ldl'], defines=DEFINES,
+                                      sanitize='address')
+        if exe is None:
+            rep.notes.append('witness of known finding %s does not compile against /repo any more: %s' % (k['id'], log[-300:]))
+            continue
+        e = dict(os.environ, ASAN_OPTIONS='detect_leaks=0:abort_on_error=0:exitcode=97', UBSAN_OPTIONS='halt_on_error=1:exitcode=98')
+        try:
+            rc, so, se = vlib.sh([exe], timeout=60, env=e)
+        except Exception as ex:      # a hang is not the recorded failure
+            rep.notes.append('witness of known finding %s: %s' % (k['id'], ex))
+            continue
+        if rc != 0 and re.search(k['signature'], se):
+            rep.known(k['id'], k['what'])
+        else:
+            rep.notes.append('known finding %s no longer reproduces on its witness program (exit %d)' % (k['id'], rc))
+    return []
